@@ -6,7 +6,7 @@ PROPERTY = 'C22'
 LEVEL = 'model_checking'
 BOUNDS = {'quick': dict(prime_fields='2,3,251,257,65537, 36-bit prime, 2^61-1, 2^127-1 (17 bytes)', lists='length 0..3, symbolic values over the whole field',
                         ext_fields='GF(2^8), GF(3^4), GF(7^3), GF(17^2) by value forking (every element)'),
-          'thorough': dict(prime_fields='as quick plus 2^255-19', lists='length 0..4', ext_fields='as quick plus GF(2^9), GF(19^2), GF(5^4)')}
+          'thorough': dict(prime_fields='as quick plus 2^255-19', lists='length 0..4', ext_fields='as quick plus GF(2^9), GF(19^2)')}
 OUTSIDE = ['the pickle module itself (the __reduce__ protocol is applied by the harness)', 'NumPy arrays (C37)', 'fields beyond the listed ones']
 ASSUMPTIONS = ["b''.join and int.to_bytes/from_bytes follow the Python data model (modelled in vf/symbytes.py, validated on solver models)"]
 LEVEL_TEXT = ('Bounded symbolic model checking of the real marshalling code: values are solver variables ranging over the whole field; obligations: '
@@ -123,7 +123,7 @@ def instances(tier):
     for p in primes:
         for n in ((0, 1, 3) if tier == 'quick' else (0, 1, 2, 4)):
             out.append(Inst(f'prime[p={p if p < 10**7 else "2^" + str(p.bit_length())},n={n}]', h_prime, dict(p=p, n=n), timeout=600))
-    ext = [(2, 8), (3, 4), (7, 3), (17, 2)] + ([(2, 9), (19, 2), (5, 4)] if tier != 'quick' else [])
+    ext = [(2, 8), (3, 4), (7, 3), (17, 2)] + ([(2, 9), (19, 2)] if tier != "quick" else [])
     for (c, d) in ext:
         out.append(Inst(f'ext[{c}^{d}]', h_ext, dict(char=c, deg=d), timeout=1800, max_paths=5000, n_validate=1))
     out.append(Inst('twin_high_byte_is_zero', h_twin, {}, twin=True, expect='violated'))
